@@ -631,6 +631,93 @@ Example ex_reuse :
      (nq_write [t [100]], 12%nat, O, None)].
 Proof. vm_compute. reflexivity. Qed.
 
+(* ---------- closures with a state, chains built by direct calls on concrete adapters (Direct.v) ---------- *)
+From Sophia.C15 Require Import Direct DirectProofs.
+(* the stack of wrapped closures offers each item to the stages one after the other, then to the consumer *)
+Check (hwrap_hthrough : forall St chain (f : sink St) x logs st,
+  hwrap chain f x (logs, st) =
+  let '(logs', o) := hthrough chain logs x in
+  match o with
+  | Some y => let '(st', oe) := f y st in ((logs', st'), oe)
+  | None => ((logs', st), None)
+  end).
+(* the second part of a chain is offered what the first part lets out and nothing else (no fusion),
+   for one item and for a stream, whatever the closures remember *)
+Check (hthrough_app : forall c1 c2 l1 l2 x,
+  length l1 = length c1 ->
+  hthrough (c1 ++ c2) (l1 ++ l2) x =
+  let '(l1', o) := hthrough c1 l1 x in
+  match o with
+  | None => (l1' ++ l2, None)
+  | Some y => let '(l2', z) := hthrough c2 l2 y in (l1' ++ l2', z)
+  end).
+Check (hrun_app : forall c1 c2 xs l1 l2,
+  length l1 = length c1 ->
+  hrun (c1 ++ c2) (l1 ++ l2) xs =
+  let '(l1', ys) := hrun c1 l1 xs in
+  let '(l2', zs) := hrun c2 l2 ys in
+  (l1' ++ l2', zs)).
+(* stage k is called exactly on the items that passed the stages before it, in order *)
+Check (stage_sees_what_passed_before : forall c1 a c2 xs,
+  nth (length c1) (fst (hrun (c1 ++ a :: c2) (empties (c1 ++ a :: c2)) xs)) []
+  = snd (hrun c1 (empties c1) xs)).
+Check (chain_output_composes : forall c1 c2 xs,
+  snd (hrun (c1 ++ c2) (empties (c1 ++ c2)) xs)
+  = snd (hrun c2 (empties c2) (snd (hrun c1 (empties c1) xs)))).
+(* closures that ignore their state: the pure model of Model.v *)
+Check (stateless_is_model : forall chain logs x,
+  snd (hthrough (map lift chain) logs x) = through chain x).
+Check (stateless_run_is_fm : forall chain xs logs,
+  snd (hrun (map lift chain) logs xs) = fm chain xs).
+(* conversions: behind .to_triples().to_quads() every quad is in the default graph; .to_quads().to_triples() is the identity *)
+Check (to_triples_to_quads_default : forall c xs,
+  Forall (fun y => gname y = 0)
+         (snd (hrun (c ++ [h_to_triples; h_to_quads]) (empties (c ++ [h_to_triples; h_to_quads])) xs))).
+Check (to_quads_to_triples_identity : forall xs logs,
+  Forall (fun x => x < 1000) xs ->
+  snd (hrun [h_to_quads; h_to_triples] logs xs) = xs).
+(* prefix before the fault, blame, and the calls every closure has received at that point *)
+Check (direct_source_fault : forall chain fault steps last e post,
+  let r := hrun chain (empties chain) (items_of steps ++ last) in
+  not_reached fault (length (snd r)) ->
+  try_for_each _ (clean steps ++ (last, Some e) :: post) [] (hsink chain fault) (empties chain, [])
+  = (post, (fst r, snd r), SourceError e)).
+Check (direct_sink_fault : forall chain steps pre x y rest_of_batch oe post j e,
+  let before := hrun chain (empties chain) (items_of steps ++ pre) in
+  snd (hthrough chain (fst before) x) = Some y ->
+  length (snd before) = j ->
+  let r := hrun chain (empties chain) (items_of steps ++ pre ++ [x]) in
+  try_for_each _ (clean steps ++ (pre ++ x :: rest_of_batch, oe) :: post) [] (hsink chain (Some (j, e)))
+    (empties chain, [])
+  = (post, (fst r, snd r), SinkError e) /\ snd r = snd before ++ [y]).
+Check (direct_no_fault : forall chain fault steps,
+  let r := hrun chain (empties chain) (items_of steps) in
+  not_reached fault (length (snd r)) ->
+  try_for_each _ (clean steps) [] (hsink chain fault) (empties chain, []) = ([], (fst r, snd r), Done)).
+Check (hdrain_logs : forall chain src logs,
+  fst (hdrain src chain logs) = fst (hrun chain logs (concat (map fst src)))).
+
+(* non-vacuity: two chained filters, the second one counting (take the first two of what the first
+   one lets through): it is called on 2, 4, 6 only; a partial predicate behind the filter that
+   establishes its domain is never called outside it; named graphs are gone behind
+   to_triples().to_quads(); a sink fault on the second item stops the closures too *)
+Example ex_direct_counting_filter :
+  run_direct (of_results [inl 1; inl 2; inl 3; inl 4; inl 5; inl 6]) [SFilter PEven; SFilter (PFirstN 2)] None
+  = ([2; 4], KDone, 6, [[1; 2; 3; 4; 5; 6]; [2; 4; 6]]).
+Proof. vm_compute. reflexivity. Qed.
+Example ex_direct_partial :
+  run_direct (of_results [inl 3; inl 1002; inl 2005; inr 9; inl 1]) [SFilter PNamed; SFilter (PPartialGLt 2)] None
+  = ([1002], KSource 9, 4, [[3; 1002; 2005]; [1002; 2005]]).
+Proof. vm_compute. reflexivity. Qed.
+Example ex_direct_flatten :
+  run_direct [([1001; 2; 2003], None)] [SToTriples; SToQuads] None
+  = ([1; 2; 3], KDone, 1, [[1001; 2; 2003]; [1; 2; 3]]).
+Proof. vm_compute. reflexivity. Qed.
+Example ex_direct_sink_fault :
+  run_direct [([1; 2; 3; 4], None); ([5], None)] [SMap MAddCalls FlQ; SFilterMap XDedupSucc FlQ] (Some (1%nat, 77))
+  = ([2; 4], KSink 77, 1, [[1; 2]; [1; 3]]).
+Proof. vm_compute. reflexivity. Qed.
+
 Print Assumptions through_app.
 Print Assumptions fm_app_chain.
 Print Assumptions iter_source_all_out.
@@ -646,3 +733,16 @@ Print Assumptions drain_after_nexts.
 Print Assumptions iter_meth_spec.
 Print Assumptions ser_rounds_fresh.
 Print Assumptions ser_rounds_no_stale_bytes.
+Print Assumptions hwrap_hthrough.
+Print Assumptions hthrough_app.
+Print Assumptions hrun_app.
+Print Assumptions stage_sees_what_passed_before.
+Print Assumptions chain_output_composes.
+Print Assumptions stateless_is_model.
+Print Assumptions stateless_run_is_fm.
+Print Assumptions to_triples_to_quads_default.
+Print Assumptions to_quads_to_triples_identity.
+Print Assumptions direct_source_fault.
+Print Assumptions direct_sink_fault.
+Print Assumptions direct_no_fault.
+Print Assumptions hdrain_logs.
